@@ -73,8 +73,8 @@ var (
 	reDecVb = regexp.MustCompile(`^if len\(data\) (?:==|!=|<=|>=|<|>) 0 \{ return unmarshalErr\(v, "", "missing data"\) \} ; var (\w+) uint = 1 ; var (\w+) uint ; ` +
 		`for _, (\w+) := range data \{ (\w+) \+= uint\((\w+)\) & uint\((\d+)\) \* (\w+) if (\w+) (>|>=) ([\d\*]+) \{ return unmarshalErr\(v, "", "size exceeded"\) \} ` +
 		`if (\w+)&(\d+) (?:==|!=|<=|>=|<|>) 0 \{ \*v = vbint\((\w+)\) return nil \} (\w+) = (\w+) \* (\d+) \} ; return unmarshalErr\(v, "", "missing data"\)$`)
-	reDecPair = regexp.MustCompile(`^var (\w+) wstring ; if err := (\w+)\.UnmarshalBinary\(data\); err != nil \{ return unmarshalErr\(v, "key", err\.\(\*Malformed\)\) \} ; v\[0\] = string\((\w+)\) ; ` +
-		`(\w+) := len\(v\[0\]\) \+ (\d+) ; var (\w+) wstring ; if err := (\w+)\.UnmarshalBinary\(data\[(\w+):\]\); err != nil \{ return unmarshalErr\(v, "value", err\.\(\*Malformed\)\) \} ; ` +
+	reDecPair = regexp.MustCompile(`^var (\w+) wstring ; if err := (\w+)\.UnmarshalBinary\(data\); err (?:!=|==) nil \{ return unmarshalErr\(v, "key", err\.\(\*Malformed\)\) \} ; v\[0\] = string\((\w+)\) ; ` +
+		`(\w+) := len\(v\[0\]\) \+ (\d+) ; var (\w+) wstring ; if err := (\w+)\.UnmarshalBinary\(data\[(\w+):\]\); err (?:!=|==) nil \{ return unmarshalErr\(v, "value", err\.\(\*Malformed\)\) \} ; ` +
 		`v\[1\] = string\((\w+)\) ; return nil$`)
 	reFillVb = regexp.MustCompile(`^(\w+) := v ; (\w+) := i ; for \{ (\w+) := byte\((\w+) % (\d+)\) (\w+) = (\w+) / (\d+) if (\w+) (?:==|!=|<=|>=|<|>) 0 \{ (\w+) = (\w+) \| (\d+) \} ` +
 		`if i (?:==|!=|<=|>=|<|>) len\(data\) \{ data\[i\] = (\w+) \} i\+\+ if (\w+) (?:==|!=|<=|>=|<|>) 0 \{ break \} \} ; return i - (\w+)$`)
@@ -342,6 +342,11 @@ def vbint.dec : Dec Nat := fun data => if data.length %s 0 then .err .missing el
 		bad = append(bad, "UserProp.UnmarshalBinary")
 	}
 	fmt.Fprintf(&sb, "def UserProp.dec : Dec (Bytes × Bytes) := %s\n\n", pairDef)
+	if fd := funcs["UserProp.UnmarshalBinary"]; fd != nil {
+		fmt.Fprintf(&sb, "/-- both error tests of `UserProp.UnmarshalBinary` are spelled `err != nil` -/\ndef UserProp.errTests : Bool := %v\n\n", !strings.Contains(wireBody(fd), "err == nil"))
+	} else {
+		sb.WriteString("def UserProp.errTests : Bool := false\n\n")
+	}
 
 	// ---- rawdata.UnmarshalBinary (the PUBLISH payload, the body of Undefined): a copy of everything that is left
 	rawDef := "fun _ => .panic"
